@@ -29,6 +29,9 @@ def h_alloc(X, ins):
     if e['kind'] == 'struct':
         r = X.alloc_obj(el)
         setv(X, ins, r)
+        # stack locals (go/ssa: Alloc with Heap == false) are not observable by the caller
+        st = X.V.__dict__.setdefault('alloc_kinds', {})
+        st.setdefault(el, set()).add(bool(ins.get('heap')))
     elif e['kind'] == 'array':
         # backing array: pointer-to-array is the array id
         a = X.alloc_id('arr')
